@@ -72,6 +72,13 @@ def gen_messages(tier):
         base.append(bytes(65 + (i % 26) if i % 61 else 10 for i in range(n)))
         base.append(bytes(65 + (i % 26) if i % 61 else 10 for i in range(n)) + b"\nFrom tail")
     base.append(b"L" * 1030 + b"\nFrom x\n" + b"M" * 3000 + b"\n")
+    # a From_ / >From_ prefix that straddles an input-buffer boundary (1024-byte reads of the message)
+    for k in (1, 2):
+        for j in range(0, 9):
+            for prefix in (b"From ", b">From ", b">>From "):
+                head_len = 1024 * k - j
+                filler = (b"filler line of text\n" * 120)[:head_len - 1] + b"\n"
+                base.append(filler + prefix + b"straddles a buffer boundary\nlast\n")
     if tier == "thorough":
         for i in range(core.scaled(250)):
             rng = core.case_rng(PROP, i, "msg")
@@ -425,7 +432,7 @@ def main(tier):
     nm = len(gen_messages(tier))
     res = core.Result()
     n_md = core.scaled(30 if quick else nm)
-    n_mb = core.scaled(30 if quick else nm)
+    n_mb = core.scaled(34 if quick else nm)
     n_cc = core.scaled(120 if quick else 3000)
     res.merge(core.pmap(maildir_worker, [(b.dir, tier, lo, hi) for lo, hi in core.chunks(n_md, 30)], timeout=3000))
     res.merge(core.pmap(mbox_worker, [(b.dir, tier, lo, hi) for lo, hi in core.chunks(n_mb, 30)], timeout=3000))
